@@ -154,7 +154,11 @@ def gcm_case(draw, tier, algos=("fast", "network", "motifs"), max_leaf_stubs=Non
     else:
         r = {"mode": "script", "ints": draw(st.lists(st.integers(0, 50), max_size=40)),
              "tail": draw(st.integers(0, 1000))}
-    return {"algo": algo, "path": path, "N": N, "jds": jds, "motifs": motifs, "rng": r}
+    c = {"algo": algo, "path": path, "N": N, "jds": jds, "motifs": motifs, "rng": r}
+    if draw(st.integers(0, 3)) == 0:
+        # the same generator object was already used for an earlier graph
+        c["prior"] = draw(st.sampled_from(["same", "reversed", "doubled"]))
+    return c
 
 
 # --------------------------------------------------------------------------- driver
@@ -224,6 +228,11 @@ def generate(case):
     jds = [tuple(r) for r in case["jds"]]
     pristine = copy.deepcopy(jds)
     with rng_ctx(case["rng"]):
+        prior = case.get("prior")
+        if prior:
+            pj = {"same": list(jds), "reversed": list(reversed(jds)), "doubled": list(jds) + list(jds)}[prior]
+            call("generate-earlier-graph", g.random_clustered_graph, pj)
+            del journal[:]
         res = call("generate", g.random_clustered_graph, jds)
     return g, cls, res, journal, jds, pristine
 
@@ -241,6 +250,8 @@ def classes_of(case):
         cl.add("multi_orbit")
     if case["rng"]["mode"] == "script":
         cl.add("scripted_rng")
+    if case.get("prior"):
+        cl.add("generator_reused")
     cl.add("algo_" + case["algo"])
     cl.add("path_" + case["path"])
     for m in case["motifs"]:
